@@ -1,8 +1,19 @@
 #!/opt/veriftools/pyvenv/bin/python
+"""Validate MANIFEST.json and every evidence file against the given schemas; exit 1 on any failure."""
 import json, jsonschema, glob, sys
-jsonschema.validate(json.load(open('/verif/MANIFEST.json')), json.load(open('/root/.vp/MANIFEST.schema.json')))
+bad = 0
+try:
+    jsonschema.validate(json.load(open('/verif/MANIFEST.json')), json.load(open('/root/.vp/MANIFEST.schema.json')))
+    print('manifest ok')
+except jsonschema.ValidationError as ex:
+    bad += 1
+    print('FAIL MANIFEST.json: %s at %s' % (ex.message[:200], list(ex.absolute_path)))
 es = json.load(open('/root/.vp/EVIDENCE.schema.json'))
 for f in sorted(glob.glob('/verif/evidence/*.json')):
-    jsonschema.validate(json.load(open(f)), es)
-    print('ok', f)
-print('manifest ok')
+    try:
+        jsonschema.validate(json.load(open(f)), es)
+        print('ok', f)
+    except jsonschema.ValidationError as ex:
+        bad += 1
+        print('FAIL %s: %s at %s' % (f, ex.message[:200], list(ex.absolute_path)))
+sys.exit(1 if bad else 0)
